@@ -1096,6 +1096,12 @@ class Object( object ):
             # sequence of unsigned bytes.
             data.service       |= 0x80
             result		= b''
+            if 'path' in data:
+                # A path naming a non-existent Object is not routed (see Message_Router.route); don't
+                # serve it from this Object's Attributes instead.
+                clid, inid, _	= resolve( data.path )
+                assert clid == self.class_id and inid == self.instance_id, \
+                    "Path %r processed by wrong Object %r" % ( data.path['segment'], self )
             if data.service == self.GA_ALL_RPY:
                 # Get Attributes All.  Collect up the bytes representing the attributes.  Replace
                 # the place-holder .get_attribute_all=True with a real dotdict.  Returns only the
